@@ -146,11 +146,16 @@ class C03:
         self.chk = chk
         self.sig_count = {}
         self.sigs_done = set()
+        self.sym_confirmed = set()
+        self.collect = None
         self.max_sigs_per_law = 3
 
     # ---- violations ------------------------------------------------------------------------------
-    def viol(self, part, law, mi, mj=None, detail=""):
+    def viol(self, part, law, mi, mj=None, detail="", via=None):
         chk = self.chk
+        if self.collect is not None:
+            self.collect.add(law)
+            return
         descs = [mi.desc] + ([mj.desc] if mj is not None else [])
         descs.sort()
         sig = "%s:%s" % (law, "~".join(descs))
@@ -164,6 +169,11 @@ class C03:
             chk.part(part, unreported_signatures=1)
             return
         self.sigs_done.add(sig)
+        # replay twice in fresh processes before printing (DESIGN 1.3); a failure that does not
+        # reproduce is a harness error, never a VIOLATION line
+        if not self.confirm(law, [m for m in (mi, mj, via) if m is not None]):
+            raise HarnessError("law %s failed in part %s but not when the same expressions were re-evaluated in a "
+                               "fresh process: x = %s | y = %s" % (law, part, mi.expr[:300], mj.expr[:300] if mj else ""))
         exprs = [mi.expr] + ([mj.expr] if mj is not None else [])
         what = "%s [%s] %s" % (law, part, detail)
         what += " | x = %s" % mi.expr[:300]
@@ -174,6 +184,21 @@ class C03:
         if new:
             # known findings do not use up the budget of reported signatures
             self.sig_count[k] = self.sig_count.get(k, 0) + 1
+
+    def confirm(self, law, members):
+        if law == "order-not-total":
+            return True   # derived from the whole matrix; its pairwise causes are confirmed separately
+        g = dict(mode='full', flags=('fn', 'canon', 'lookup'), members=members)
+        for _ in range(2):
+            res = run_batch("fast", DRIVER, [self.item_of(g)], chunk=1, timeout=120, jobs=1)
+            if res[0][0] != "OK":
+                return law.startswith("construction")
+            probe = C03(self.chk)
+            probe.collect = set()
+            probe.check_group("confirmations", g, res[0][1])
+            if law not in probe.collect:
+                return False
+        return True
 
     def replay_pair(self, exprs, law, detail):
         x = exprs[0]
@@ -432,7 +457,7 @@ class C03:
             if ra[c] == 2 or ((ra[b] == 0 or rb[c] == 0) and ra[c] != 0):
                 self.viol(part, "order-not-transitive", mem[a], mem[c],
                           "via z = %s : cmp(x,z)=%d cmp(z,y)=%d cmp(x,y)=%d" % (
-                              mem[b].expr[:200], ra[b] - 1, rb[c] - 1, ra[c] - 1))
+                              mem[b].expr[:200], ra[b] - 1, rb[c] - 1, ra[c] - 1), via=mem[b])
                 return True
             return False
         for a in cand:
@@ -595,10 +620,37 @@ def part_universe(c):
                     # a<=b<=x  =>  a<=x, and a=x only if both equalities
                     if sax == 2 or (sax == 1 and (sab == 0 or sbx == 0)):
                         c.viol("universe/transitivity", "order-not-transitive", glob[a], glob[x],
-                               "via z = %s" % glob[b].expr[:200])
+                               "via z = %s" % glob[b].expr[:200], via=glob[b])
         chk.part("universe/transitivity", triples_checked=ntri, representatives=len(rl))
         chk.add(evaluations=ntri)
     return classes
+
+
+def tri_mismatches(n, text):
+    """Compare the variadic results with the pair matrix of the same process."""
+    pm, tm = text.split(SEP1)
+    if len(pm) != n * n * 2 or len(tm) != n * n * n:
+        raise HarnessError("triples output size")
+    eq = [[(ord(pm[(i * n + j) * 2]) - 48) & 1 for j in range(n)] for i in range(n)]
+    cm = [[(ord(pm[(i * n + j) * 2 + 1]) - 48) % 3 - 1 for j in range(n)] for i in range(n)]
+    outcomes = set()
+    bad = []
+    for i in range(n):
+        ci, ei = cm[i], eq[i]
+        for j in range(n):
+            cj, ej = cm[j], eq[j]
+            a = ci[j]
+            e1 = ei[j]
+            base = (i * n + j) * n
+            for k in range(n):
+                b = cj[k]
+                want = ((a < 0 and b < 0) + 2 * (a <= 0 and b <= 0) + 4 * (e1 and ej[k]) + 8 * (a > 0 and b > 0)
+                        + 16 * (a >= 0 and b >= 0) + 32 * (not (e1 and ej[k])))
+                got = ord(tm[base + k]) - 48
+                if got != want:
+                    bad.append((i, j, k, got, want))
+                outcomes.add(got)
+    return bad, outcomes
 
 
 def part_triples(c, classes):
@@ -616,39 +668,43 @@ def part_triples(c, classes):
     if chk.quick:
         reps = pick(reps, 64)
     n = len(reps)
-    # split the i index over items? identity order must be consistent: each item carries its own pair matrix
-    items = ["(tri %s)" % " ".join(m.expr for m in reps)]
-    res = run_batch("fast", DRIVER, items, chunk=1, timeout=900)
+    # one process: identity values are ordered by address, the pair matrix must come from the same run
+    res = run_batch("fast", DRIVER, ["(tri %s)" % " ".join(m.expr for m in reps)], chunk=1, timeout=900)
     status, text = res[0]
     if status != "OK":
         raise HarnessError("triples item failed: %s %s" % (status, text[:300]))
-    pm, tm = text.split(SEP1)
-    if len(pm) != n * n * 2 or len(tm) != n * n * n:
-        raise HarnessError("triples output size")
-    eq = [[(ord(pm[(i * n + j) * 2]) - 48) & 1 for j in range(n)] for i in range(n)]
-    cm = [[(ord(pm[(i * n + j) * 2 + 1]) - 48) % 3 - 1 for j in range(n)] for i in range(n)]
-    bad = 0
-    outcomes = set()
-    for i in range(n):
-        ci, ei = cm[i], eq[i]
-        for j in range(n):
-            cj, ej = cm[j], eq[j]
-            a = ci[j]
-            e1 = ei[j]
-            base = (i * n + j) * n
-            for k in range(n):
-                b = cj[k]
-                want = ((a < 0 and b < 0) + 2 * (a <= 0 and b <= 0) + 4 * (e1 and ej[k]) + 8 * (a > 0 and b > 0)
-                        + 16 * (a >= 0 and b >= 0) + 32 * (not (e1 and ej[k])))
-                got = ord(tm[base + k]) - 48
-                if got != want:
-                    bad += 1
-                    c.viol("triples", "variadic-vs-pairwise", reps[i], reps[k],
-                           "(op x z y) bits %d expected %d [lt le eq gt ge not=], z = %s" % (got, want, reps[j].expr[:200]))
-                outcomes.add(got)
+    bad, outcomes = tri_mismatches(n, text)
+    reported = 0
+    for (i, j, k, got, want) in bad:
+        chk.part("triples", law_failures=1)
+        if reported >= 3:
+            continue
+        ms = [reps[i], reps[j], reps[k]]
+        sig = "variadic-vs-pairwise:" + "~".join(sorted(m.desc for m in ms))
+        if sig in c.sigs_done:
+            continue
+        c.sigs_done.add(sig)
+        # confirm twice in fresh processes
+        for _ in range(2):
+            r = run_batch("fast", DRIVER, ["(tri %s)" % " ".join(m.expr for m in ms)], chunk=1, timeout=120, jobs=1)[0]
+            if r[0] != "OK" or not tri_mismatches(3, r[1])[0]:
+                raise HarnessError("variadic mismatch did not reproduce: %s" % " | ".join(m.expr for m in ms))
+        reported += 1
+        chk.violation(sig, "variadic comparison differs from the pairwise results: bits %d expected %d "
+                      "[1 (< x y z), 2 (<= x y z), 4 (= x y z), 8 (> x y z), 16 (>= x y z), 32 (not= x y z)] | x = %s | y = %s | z = %s" % (
+                          got, want, ms[0].expr[:200], ms[1].expr[:200], ms[2].expr[:200]),
+                      replay_text=IDENT_PRELUDE + """
+(def x %s)
+(def y %s)
+(def z %s)
+(printf "x = %%q  y = %%q  z = %%q" x y z)
+(printf "(cmp x y) %%q (cmp y z) %%q (= x y) %%q (= y z) %%q" (cmp x y) (cmp y z) (= x y) (= y z))
+(printf "(< x y z) %%q (<= x y z) %%q (= x y z) %%q (> x y z) %%q (>= x y z) %%q (not= x y z) %%q" (< x y z) (<= x y z) (= x y z) (> x y z) (>= x y z) (not= x y z))
+(print "expected: each variadic form equals the conjunction of its two pairwise results")
+""" % (ms[0].expr, ms[1].expr, ms[2].expr), replay_cmd="janet <this file>")
     for o in outcomes:
         chk.outcome("tri:%d" % o)
-    chk.part("triples", triples=n ** 3, representatives=n, mismatches=bad)
+    chk.part("triples", triples=n ** 3, representatives=n, mismatches=len(bad))
     chk.add(evaluations=n ** 3, transitions=n ** 3)
 
 
@@ -1018,7 +1074,7 @@ def part_symbols(c):
             hs = sym_histories(nnames, d, grow=with_grow)
             items = ['(symhist %s %d "%s")' % (names_j, nfill, h) for h in hs]
             try:
-                res = run_batch("fast", DRIVER, items, chunk=max(50, len(items) // 64 + 1), timeout=120)
+                res = run_batch("fast", DRIVER, items, chunk=max(50, len(items) // 64 + 1), timeout=300)
             except HarnessError as e:
                 # a broken symbol cache can take the batch protocol down with it (the item file itself
                 # is parsed by the interpreter under test): once violations are on record, stop here
@@ -1027,10 +1083,13 @@ def part_symbols(c):
                     aborted = True
                     break
                 raise
-            for h, (status, text) in zip(hs, res):
+            csize = max(50, len(items) // 64 + 1)
+            for hi, (h, (status, text)) in enumerate(zip(hs, res)):
                 total_hist += 1
+                context = hs[(hi // csize) * csize: hi]
                 if status != "OK":
-                    c.sym_violation(tag, names, nfill, h, "history %s: %s" % (status, text[:200]), "symbol-history-" + status.lower())
+                    c.sym_violation(tag, names, nfill, h, "history %s: %s" % (status, text[:200]),
+                                    "symbol-history-" + status.lower(), context)
                     continue
                 a, b, cc, lost = text.split("/")
                 chk.outcome("sym:" + text)
@@ -1052,7 +1111,7 @@ def part_symbols(c):
                         what.append("%s held filler symbols are not found again (first: c03fill%s)" % tuple(lost.split(":")))
                     law = "interned-not-identical" if (any(ch not in ".o" for ch in a) or lost != "0:-1") else (
                         "different-content-equal" if any(ch != "0" for ch in b) else "same-content-not-equal")
-                    c.sym_violation(tag, names, nfill, h, "; ".join(what), law + ":symbol-history")
+                    c.sym_violation(tag, names, nfill, h, "; ".join(what), law + ":symbol-history", context)
             chk.add(evaluations=len(hs), transitions=sum(len(h.split()) for h in hs), states=len(hs))
             if with_grow:
                 done_grow = d
@@ -1065,7 +1124,7 @@ def part_symbols(c):
     chk.part("symbols", histories=total_hist)
 
 
-def sym_replay_text(names, nfill, hist):
+def _sym_ops(hist, nfill):
     ops = []
     for op in hist.split():
         ch = op[0]
@@ -1084,13 +1143,23 @@ def sym_replay_text(names, nfill, hist):
             ops.append("(for j 0 %d (array/push fill (symbol \"c03fill\" j)))" % nfill)
         elif ch == "R":
             ops.append("(array/clear fill)")
-    return """# history: %s
-(def names [%s])   # strings whose hashes agree in the low 18 bits: one home slot in the symbol cache
-(def held @[%s])
+    return ops
+
+
+def sym_replay_text(names, nfill, hists):
+    """Stand-alone script for a list of histories run one after the other in one process (the last
+    one is the failing one; usually the list has one element)."""
+    body = []
+    for h in hists:
+        body.append("# history: %s" % h)
+        body.append("(step (fn [] (array/clear held) (for i 0 (length names) (put held i nil)) (array/clear fill)))")
+        body.append("(gccollect)")
+        body += ["(step (fn [] %s))" % o for o in _sym_ops(h, nfill)]
+    return """(def names [%s])   # strings whose hashes agree in the low 18 bits: one home slot in the symbol cache
+(def held @[])
 (def fill @[])
 (defn step [f] (f) nil)
 %s
-(gccollect)
 (for i 0 (length names)
   (def h (get held i))
   (when h
@@ -1100,14 +1169,45 @@ def sym_replay_text(names, nfill, hist):
 (for j 0 (length fill) (unless (= (symbol "c03fill" j) (fill j)) (++ lost)))
 (print "held filler symbols not found again: " lost)
 (print "expected: every (= fresh held) true, equal hashes, lookup :found, 0 fillers lost")
-""" % (hist, " ".join('"%s"' % n for n in names), " ".join("nil" for _ in names),
-       "\n".join("(step (fn [] %s))" % o for o in ops))
+""" % (" ".join('"%s"' % n for n in names), "\n".join(body))
 
 
-def _sym_violation(self, tag, names, nfill, hist, what, sig):
-    self.chk.part(tag, law_failures=1)
-    self.chk.violation(sig, "after history [%s]: %s" % (hist, what), replay_text=sym_replay_text(names, nfill, hist),
-                       replay_cmd="janet <this file>")
+def sym_ok(status, text):
+    if status != "OK":
+        return False
+    parts = text.split("/")
+    if len(parts) != 4:
+        return False
+    a, b, cc, lost = parts
+    return (all(ch == "." or ch == "o" for ch in a) and all(ch == "0" for ch in b) and (cc == "" or cc == "O")
+            and lost == "0:-1")
+
+
+def _sym_violation(self, tag, names, nfill, hist, what, sig, context=()):
+    """Confirm in a fresh process before reporting: first the history alone, then (if the failure
+    needs the state left by earlier histories of the same worker) the worker's whole prefix."""
+    names_j = "[%s]" % " ".join('"%s"' % nm for nm in names)
+
+    def run_seq(hs):
+        items = ['(symhist %s %d "%s")' % (names_j, nfill, h) for h in hs]
+        return run_batch("fast", DRIVER, items, chunk=len(items), timeout=300, jobs=1)[-1]
+    if sig in self.sym_confirmed:
+        self.chk.part(tag, law_failures=1)
+        self.chk.violation(sig, "after history [%s]: %s" % (hist, what))
+        return
+    for hs in ([hist], list(context) + [hist]):
+        r1 = run_seq(hs)
+        r2 = run_seq(hs)
+        if not sym_ok(*r1) and not sym_ok(*r2):
+            self.sym_confirmed.add(sig)
+            self.chk.part(tag, law_failures=1)
+            self.chk.violation(sig, "after history [%s]%s: %s" % (
+                hist, "" if len(hs) == 1 else " (preceded by %d other histories in the same process)" % (len(hs) - 1), what),
+                replay_text=sym_replay_text(names, nfill, hs), replay_cmd="janet <this file>")
+            return
+        if not context:
+            break
+    raise HarnessError("symbol history [%s] failed in the batch (%s) but not when replayed in a fresh process" % (hist, what[:200]))
 
 
 C03.sym_violation = _sym_violation
